@@ -145,8 +145,8 @@ func genC08(r *gen.Rand) *C08Case {
 	var first any
 	name := base
 	anchorAt := -1
-	if r.Chance(0.06) {
-		anchorAt = r.Intn(nLayers) // one layer is hand-written YAML with anchors and aliases
+	if r.Chance(0.1) {
+		anchorAt = r.Intn(nLayers) // one layer is hand-written text using features of the formats
 	}
 	if r.Chance(0.03) {
 		// a YAML layer with very long physical lines (a blob, a certificate
@@ -225,12 +225,48 @@ func genC08(r *gen.Rand) *C08Case {
 				k + ": &x {b: &y {c: *x}}\nz: *y\n",
 				k + ":\n  $decode: yaml\n  $value: \"&x [*x]\"\n",
 				k + ": &x {<<: *x, a: 1}\n",
+				// other features of the formats that generated trees never use
+				"\ufeff" + k + ": 1\nbom: true\n",
+				k + ": 1\r\nb: [1, 2]\r\n---\r\nc: 3\r\n",
+				k + ": |\n  line one\n  line two\nfolded: >\n  a\n  b\n\nafter: 1\n",
+				k + ": !!str 123\nbin: !!binary aGVsbG8=\nt: 2001-12-14t21:59:43.10-05:00\nd: 2002-12-14\n",
+				k + ": 0o14\nhex: 0xff\nund: 1_000\ninf: .inf\nnan: .nan\nneg0: -0.0\nbig: 123456789012345678901234567890\n",
+				"? [complex, key]\n: v\n1: numeric key\ntrue: bool key\n",
+				k + ": 1\n...\n---\n" + k + ": 2\n...\n",
+				"---\n---\n" + k + ": 1\n---\n\n---\n# only a comment\n",
+				"- top\n- level\n- list\n---\njust a scalar\n---\n42\n",
+				k + ": {flow: [1, {deep: [2, {deeper: 3}]}], 'single': \"double\"}\n\ttab: 1\n",
+				k + ": [1, 2\n  , 3]\n'quoted key': \"\\u00e9\\n\\t\"\n",
 			})
 			ext = "yaml"
 			p = filepath.Join(c08Dir, name+".yaml")
+			if r.Chance(0.3) {
+				// the same idea for TOML and JSON
+				ext = r.Pick("toml", "json")
+				p = filepath.Join(c08Dir, name+"."+ext)
+				if ext == "toml" {
+					raw = gen.PickAny(r, []string{
+						"a.b.c = 1\na.b.d = 2\n[t]\nx = 1\n[[arr]]\nn = 1\n[[arr]]\nn = 2\n",
+						"d = 1979-05-27T07:32:00Z\nld = 1979-05-27\nlt = 07:32:00\nm = \"\"\"\nmulti\nline\"\"\"\nlit = 'C:\\path'\n",
+						"x = 1\n+++\ny = 2\n---\nz = 3\n",
+						"i = 9223372036854775807\nh = 0xDEADBEEF\no = 0o755\nb = 0b1101\nf = 6.626e-34\nu = 1_000\n",
+						"inline = { a = 1, b = { c = [1, 2, { d = 3 }] } }\nempty = {}\narr = []\n",
+						"\"quoted.key\" = 1\n'lit key' = 2\n\"\" = \"empty key\"\n",
+					})
+				} else {
+					raw = gen.PickAny(r, []string{
+						"{\"a\": 1, \"a\": 2, \"b\": {\"c\": 1, \"c\": {\"d\": 1}}}\n",
+						"{\"n\": 123456789012345678901234567890, \"f\": 1e400, \"e\": 1E-400, \"neg\": -0}\n",
+						"{\"s\": \"\\ud83d\\ude00 \\u0000 \\/ \\b\\f\"}\n   \n{\"second\": true}\n\n",
+						"[1, [2, [3, [4, [5, [6, [7, [8, [9, [10]]]]]]]]]]\n",
+						"  {\"ws\" :\t1 }\r\n{\"crlf\":2}\r\n",
+						"\"top-level string\"\n42\nnull\ntrue\n[]\n{}\n",
+					})
+				}
+			}
 			w.Files = append(w.Files, procsim.File{Path: p, Raw: &raw})
-			names = append(names, name+".yaml")
-			c.Faults = append(c.Faults, "input:yaml-anchors")
+			names = append(names, filepath.Base(p))
+			c.Faults = append(c.Faults, "input:format-features")
 			continue
 		}
 		w.Files = append(w.Files, procsim.File{Path: p, Docs: treeDocs(docs...)})
